@@ -486,7 +486,7 @@ R.contract("Node._check_timers", params={"self": "Node", "conn": "PeerConnection
                      "dict:self.connections", "dict:self.peer_sockets", "dict:self._peer_waiting_answer", "*Event.flag",
                      "*StoppableThread.stopped", "*Socket.closed", "dict:self.socket_peers",
                      "dict:self._half_ready_connections", "*list:Peer"],
-           props=["C11", "C06", "C18"],
+           props=["C11", "C06", "C18", "C14"],     # C14: a handshake that dies silently is timed out and released
            note="total decision function over (stopping, state, virtual clock readings, node and per-peer timers)")
 
 # ---- C09: answers of applications go back to the requesting connection --------------------------------------
@@ -613,7 +613,7 @@ R.contract("Node.route_request", params={"self": "Node", "app": "Application", "
            raises=[Raise("NotRoutable", "not (rq_list_known(self, app, message) and p in rq_list(self, app, message) and ready_peer(p))", "only_if")],
            ghost_modifies=["self.g_sel_offer"],
            modifies=["message.header.hop_by_hop_identifier", "*SequenceGenerator._sequence", "dict:self._app_waiting_answer"],
-           props=["C10", "C16", "C06", "C12"],
+           props=["C10", "C16", "C06", "C12", "C08"],     # C08: an outbound lookup must not alter the routing table
            note="p is an arbitrary witness peer: NotRoutable only if p is not an eligible ready peer (so: raised only when no "
                 "eligible peer exists); on NotRoutable the frame shows that no table changed and nothing was queued")
 R.loop("Node.route_request", 0,
